@@ -16,12 +16,14 @@ def prop(pid):
     return deco
 
 
-def _exec_check(run, mc_jobs, gen_jobs, rand_family, rand_n, chain=1, sample=None, rule="", keys=False, extra=None):
+def _exec_check(run, mc_jobs, gen_jobs, rand_family, rand_n, chain=3, sample=None, rule="", keys=False, extra=None, derive=None):
     rng = random.Random(run.seed)
     for name, kw in mc_jobs:
         X.model_check(run, name, **kw)
     recs = X.generate(run, gen_jobs)
     sessions = X.to_sessions(recs, rng, chain=chain, sample=sample)
+    if derive:
+        sessions += derive(recs, rng)
     run.cov["generated_scenarios"] = len(recs)
     run.cov["replayed_sessions_small_scope"] = len(sessions)
     ns1, _ = X.run_and_validate(run, sessions, "gen", keys)
@@ -122,6 +124,7 @@ def c05(run):
            ("g_smix", dict(names="Names3", sal="Sal2", methods=smix, maxnames=3, beh="Beh2"))]
     if run.tier == "quick":
         gen.append(("g_snm", dict(names="Names2", sal="Sal2", methods=snm, nm="NMq", maxnames=2, beh="Beh2")))
+        gen.append(("g_snm3", dict(names="Names3", sal="Sal1", methods=snm, nm="NM11", maxnames=3, beh="Beh1")))
     else:
         # one generator job per method keeps every job below ~7k records
         gen += [("g_snm%d" % i, dict(names="Names3", sal="Sal1", methods=[m], nm="NMs", maxnames=3, beh="Beh2")) for i, m in enumerate(snm)]
@@ -187,7 +190,8 @@ def c12(run):
     gen = [("g_sel%d" % i, dict(names="Names3", sal="Sal2", methods=[m], maxnames=T(run, 2, 3), beh="Beh2"))
            for i, m in enumerate(sel)]
     if run.tier == "quick":
-        gen += [("g_snm", dict(names="Names2", sal="Sal2", methods=snm, nm="NMq", maxnames=2, beh="Beh2"))]
+        gen += [("g_snm", dict(names="Names2", sal="Sal2", methods=snm, nm="NMq", maxnames=2, beh="Beh2")),
+                ("g_snm3", dict(names="Names3", sal="Sal1", methods=snm, nm="NM11", maxnames=3, beh="Beh1"))]   # name lists longer than N+M
     else:
         gen += [("g_snm%d" % i, dict(names="Names3", sal="Sal1", methods=[m], nm="NMs", maxnames=3, beh="Beh2")) for i, m in enumerate(snm)]
     return _exec_check(run, mc, gen, "selected", T(run, 500, 8000), sample=T(run, 4000, 60000),
@@ -217,7 +221,37 @@ def c14(run):
            ("g_mixtag", dict(names="Names3", sal="Sal2", methods=tagm[1:2], beh="Beh2", tag=True)),
            ("g_seltag", dict(names=T(run, "Names2", "Names3"), sal="Sal2", methods=tagm[2:], beh="Beh2", tag=True,
                              maxnames=T(run, 2, 3)))]
-    return _exec_check(run, mc, gen, "tag", T(run, 500, 8000), sample=T(run, 4000, 60000),
+    notag = {"ExecuteWithStopTagDirect": "Execute", "ExecuteMixModelWithStopTagDirect": "ExecuteMixModel",
+             "ExecuteSelectedRulesWithControlAndStopTag": "ExecuteSelectedRulesWithControl",
+             "ExecuteSelectedRulesWithControlAndStopTagAsGivenSortedName": "ExecuteSelectedRulesWithControlAsGivenSortedName"}
+
+    def twins(recs, rng):
+        """'If the tag is never set, behaviour is identical to the corresponding variant without a tag': the variant
+        without a tag and then the stop-tag variant, same arguments and outcomes, on one engine; ExecTrace compares the
+        two histories.  Rule sets get extra tied saliences (identity includes the order among ties)."""
+        out = []
+        cand = [r for r in recs if not r["tagset"]]
+        rng.shuffle(cand)
+        for i, r in enumerate(cand[:T(run, 1500, 20000)]):
+            rules = [dict(ru) for ru in r["rules"]]
+            if rng.random() < 0.5:
+                for ru in rules:
+                    ru["sal"] = rng.choice([0, 0, 1])
+            names = list(r["names"])
+            if names and rng.random() < 0.5:
+                rng.shuffle(names)
+            tpls = {ru["name"]: "A" for ru in rules}
+            c2 = X.to_call(dict(r, names=names), rng, tpls)
+            c1 = dict(c2, method=notag[r["method"]])
+            c2["twin"] = True
+            for tgt in ("engine", "pool"):
+                if tgt == "pool" and not rules:
+                    continue
+                out.append({"id": 3000000 + 2 * i + (tgt == "pool"), "target": tgt, "gated": "Mix" in r["method"], "burst": False,
+                            "rules": [{"name": ru["name"], "sal": ru["sal"], "tpl": "A", "fk": rng.choice(["", ""] + X.FAIL_KINDS[:6])} for ru in rules],
+                            "calls": [c1, c2]})
+        return out
+    return _exec_check(run, mc, gen, "tag", T(run, 500, 8000), sample=T(run, 4000, 60000), derive=twins,
                        rule="sessions enumerated by TLC: the four stop-tag variants x rule sets (<=3 rules, tied saliences) x which rule "
                             "(or none) sets the tag x outcomes x error policy; the tag-less case is the same plan without the gate, so "
                             "'never set' traces are validated against the identical-behaviour requirement; plus seeded random sessions")
